@@ -356,7 +356,7 @@ class DensityEstimator(BaseEstimator):
 
     def _set_log_density_func(self):
         x = self.x
-        landmarks = self.landmarks
+        landmarks = self._predictor_landmarks()
         pre_transformation = self.pre_transformation
         pre_transformation_std = self.pre_transformation_std
         log_density_x = self.log_density_x
